@@ -138,6 +138,10 @@ EQUIVALENTS = [
     ('eq-pagesize-checks-swapped', 'C16', 'src/db.rs', '        if pagesize < 1024 {\n            panic!("Pagesize must be 1024 bytes minimum");\n        }\n        // Pages are read in place through references to 8-byte aligned structs,\n        // so every page has to start on an 8-byte boundary.\n        if pagesize % 8 != 0 {\n            panic!("Pagesize must be a multiple of 8 bytes");\n        }', '        if pagesize % 8 != 0 {\n            panic!("Pagesize must be a multiple of 8 bytes");\n        }\n        if pagesize < 1024 {\n            panic!("Pagesize must be 1024 bytes minimum");\n        }'),
     ('eq-release-early-break-form', 'C10', 'src/freelist.rs', '            if other_tx_id < tx_id {\n                let pages = self.pending_pages.remove(&other_tx_id).unwrap();\n                pages.into_iter().for_each(|p| {\n                    self.free_pages.insert(p);\n                });\n            } else {\n                break;\n            }', '            if other_tx_id >= tx_id {\n                break;\n            }\n            let pages = self.pending_pages.remove(&other_tx_id).unwrap();\n            pages.into_iter().for_each(|p| {\n                self.free_pages.insert(p);\n            });'),
     ('eq-advance-if-not', 'C08', 'src/cursor.rs', '                    if self.stack.len() == 1 {\n                        return false;\n                    }\n                    self.stack.pop();\n                    continue;', '                    if self.stack.len() != 1 {\n                        self.stack.pop();\n                        continue;\n                    }\n                    return false;'),
+    ('eq-allocate-len-zero', 'C10', 'src/freelist.rs', '        if self.free_pages.is_empty() {\n            return None;\n        }\n        let mut start: PageID = 0;', '        if self.free_pages.len() == 0 {\n            return None;\n        }\n        let mut start: PageID = 0;'),
+    ('eq-allocate-else-keep-start', 'C10', 'src/freelist.rs', '            if prev == 0 || id - prev != 1 {\n                start = id;\n            }', '            if !(prev == 0 || id - prev != 1) {\n                // still inside the current run\n            } else {\n                start = id;\n            }'),
+    ('eq-next-empty-check-len', 'C08', 'src/cursor.rs', '        if self.stack.is_empty() {\n            self.seek_first();\n        } else if', '        if self.stack.len() == 0 {\n            self.seek_first();\n        } else if'),
+    ('eq-drop-guard-clause', 'C03', 'src/tx.rs', '        if !self.lock.writable() {\n            let mut open_txs', '        if self.lock.writable() {\n            return;\n        }\n        {\n            let mut open_txs'),
     ('eq-open-lock-binding', 'C13', 'src/db.rs', '        file.lock_exclusive()?;\n', '        let locked = file.lock_exclusive();\n        locked?;\n'),
 ]
 CANARY_EXPECT_NOT_KILLED = set(c[0] for c in EQUIVALENTS)
